@@ -88,6 +88,12 @@ func c08ProbeIncl(r *hx.Result, p [][32]byte, i, j uint64, leaf, root [32]byte, 
 	r.Count("vincl." + kind + "." + b2s(got))
 	r.Eval(op, got || kind != "honest")
 	r.OracleChecks++
+	// a claim about a position outside the claimed size (i = 0 or i > j) is false whatever proof, leaf and root are
+	if got && (i == 0 || i > j) {
+		r.Fail("C08:ahtree.VerifyInclusion:accepts-position-outside-size",
+			fmt.Sprintf("VerifyInclusion accepted position i=%d in a tree of claimed size j=%d (proof len %d, kind %s)", i, j, len(p), kind),
+			c08Replay{Kind: "vincl", Ops: []string{op}})
+	}
 	// semantic oracle: root is the true root of size j  =>  accepted iff-implies leaf is the i-th leaf
 	if j >= 1 && int(j) <= len(leaves) && root == refMth(leaves[:j]) {
 		truth := i >= 1 && i <= j && leaves[i-1] == leaf
@@ -129,6 +135,11 @@ func c08ProbeCons(r *hx.Result, p [][32]byte, i, j uint64, r1, r2 [32]byte, leav
 	r.Count("vcons." + kind + "." + b2s(got))
 	r.Eval(op, got || kind != "honest")
 	r.OracleChecks++
+	if got && (i == 0 || i > j) {
+		r.Fail("C08:ahtree.VerifyConsistency:accepts-size-outside-size",
+			fmt.Sprintf("VerifyConsistency accepted an earlier size i=%d for a tree of claimed size j=%d (proof len %d, kind %s)", i, j, len(p), kind),
+			c08Replay{Kind: "vcons", Ops: []string{op}})
+	}
 	if j >= 1 && int(j) <= len(leaves) && r2 == refMth(leaves[:j]) {
 		truth := i >= 1 && i <= j && refMth(leaves[:i]) == r1
 		if got && !truth {
@@ -420,6 +431,14 @@ func c08AhtCase(r *hx.Result, rng *hx.Rng, maxN int, allPairs bool, nProbe int) 
 				} else {
 					c08ProbeIncl(r, ip, i, j2, leaves[i-1], rj, leaves, "shift-j-oob")
 				}
+				// the genuine proof, leaf and root of (i, j) presented for a claimed size BELOW the position, and for a
+				// position beyond the size with the same number of proof terms (e.g. (n,n) as (n,n-1), (4,4) as (6,5))
+				if i > 1 {
+					c08ProbeIncl(r, ip, i, i-1-uint64(rng.Intn(int(i-1))), leaves[i-1], rj, leaves, "size-below-position")
+				}
+				for _, d := range []uint64{1, 2, 4, 8} {
+					c08ProbeIncl(r, ip, j+d+1, j+d, leaves[i-1], rj, leaves, "position-beyond-size")
+				}
 			case 3: // mutated terms
 				q, k := mutTerms(rng, ip, pool)
 				c08ProbeIncl(r, q, i, j, leaves[i-1], rj, leaves, "terms-"+k)
@@ -438,6 +457,11 @@ func c08AhtCase(r *hx.Result, rng *hx.Rng, maxN int, allPairs bool, nProbe int) 
 				}
 				c08ProbeCons(r, cp, i, j, pool[rng.Intn(len(pool))], rj, leaves, "iroot-swap")
 				c08ProbeCons(r, cp, i, j, rj, ri, leaves, "roots-swapped")
+				// genuine proof and roots presented with the two sizes swapped / the earlier size beyond the later one
+				c08ProbeCons(r, cp, j+1, j, ri, rj, leaves, "size-beyond-size")
+				if i < j {
+					c08ProbeCons(r, cp, j, i, rj, ri, leaves, "sizes-swapped")
+				}
 			case 7: // consistency: foreign proof
 				i2 := 1 + uint64(rng.Intn(int(j)))
 				cp2, _ := t.ConsistencyProof(i2, j)
